@@ -30,6 +30,28 @@ Fixpoint has_char (c: ascii) (s: string) : bool :=
   | String a r => if Ascii.eqb a c then true else has_char c r
   end.
 Definition semicolon : ascii := ";"%char.
+(* Does the printed form of an opaque node contain a `;` whose innermost enclosing bracket is a
+   parenthesis, i.e. can it contain a pool?  (`;` between body literals, aggregate or theory elements
+   is at depth 0 or directly inside braces / square brackets; string literals are skipped.) *)
+Fixpoint pool_scan (s: string) (stack: list bool) (instr esc: bool) : bool :=
+  match s with
+  | EmptyString => false
+  | String c r =>
+      if instr then
+        (if esc then pool_scan r stack true false
+         else if Ascii.eqb c "\"%char then pool_scan r stack true true
+         else if Ascii.eqb c """"%char then pool_scan r stack false false
+         else pool_scan r stack true false)
+      else if Ascii.eqb c """"%char then pool_scan r stack true false
+      else if Ascii.eqb c "("%char then pool_scan r (true :: stack) false false
+      else if orb (Ascii.eqb c "{"%char) (Ascii.eqb c "["%char) then pool_scan r (false :: stack) false false
+      else if orb (Ascii.eqb c ")"%char) (orb (Ascii.eqb c "}"%char) (Ascii.eqb c "]"%char))
+           then pool_scan r (tl stack) false false
+      else if Ascii.eqb c semicolon then
+        match stack with true :: _ => true | _ => pool_scan r stack false false end
+      else pool_scan r stack false false
+  end.
+Definition may_have_pool (text: string) : bool := pool_scan text [] false false.
 Definition lbrace : ascii := "{"%char.
 
 (* sequencing over lists of results *)
@@ -139,7 +161,7 @@ Definition inline_replace_head (var: string) (new: term) (h: head) : head := vma
 
 (* ---------- replacing the outermost nodes of a kind, in visiting order, by given terms ---------- *)
 Section Fill.
-  Variable p: term -> bool.
+  Context (p: term -> bool).
   Section FillList.
     Context {A: Type} (f: A -> list term -> A * list term).
     Fixpoint fill_list (xs: list A) (ns: list term) : list A * list term :=
@@ -339,7 +361,9 @@ Definition remove_unecessary_bounds (prg: list stmt) : result (list stmt) := rma
    - a node with several attributes is the cross product of the alternatives of its attributes with
      the *first* attribute as the outermost loop (`cross2`);
    - a node with a sequence attribute (arguments, guards, tuple terms, condition, body) is the cross
-     product of the alternatives of its items with the *first* item varying fastest (`vec_cross`);
+     product of the alternatives of its items in the peculiar order of `vec_cross` (for items with at
+     most two alternatives: the first item varies fastest; p((1;2;3),(4;5;6)) gives
+     (1,4) (2,4) (3,4) (1,5) (1,6) (2,5) (2,6) (3,5) (3,6));
    - elements of aggregates (body, head, old-style) are replaced by all their alternatives (same set);
    - a conditional literal in a body or in a disjunction is first replaced by one *sibling* per
      alternative of its condition; afterwards the literal part of every sibling is unpooled on its own
@@ -347,11 +371,14 @@ Definition remove_unecessary_bounds (prg: list stmt) : result (list stmt) := rma
      rules, among them `a :- p(2):q(3); p(1):q(4).`);
    - statements: body is the outermost loop, then (rule) head / (minimize) weight, priority, terms /
      (#show) term. *)
-Fixpoint vec_cross {A} (pools: list (list A)) : list (list A) :=
-  match pools with
-  | [] => [[]]
-  | p :: rest => flat_map (fun tl => map (fun h => h :: tl) p) (vec_cross rest)
+(* measured: every further item of the sequence first extends the rows built so far by its *first*
+   alternative (in place) and then appends, row by row, the copies extended by its other alternatives *)
+Definition cross_step {A} (res: list (list A)) (x: list A) : list (list A) :=
+  match x with
+  | [] => []
+  | x0 :: xr => map (fun r => r ++ [x0]) res ++ flat_map (fun r => map (fun y => r ++ [y]) xr) res
   end.
+Definition vec_cross {A} (pools: list (list A)) : list (list A) := fold_left cross_step pools [[]].
 Definition cross2 {A B C} (f: A -> B -> C) (xs: list A) (ys: list B) : list C :=
   flat_map (fun x => map (f x) ys) xs.
 
@@ -418,21 +445,21 @@ Definition unpool_head (h: head) : list head :=
   end.
 
 (* pools hidden in opaque text: theory atoms (name arguments, element conditions) and the statements
-   with a body that the mirror keeps as text.  A `;` is necessary for a pool. *)
+   with a body that the mirror keeps as text (see may_have_pool). *)
 Definition theory_text_of_bodyelem (b: bodyelem) : list string :=
   match b with BLit (Lit _ (ATheory t)) => [t] | _ => [] end.
 Definition unpool_opaque (s: stmt) : bool :=
   match s with
   | SRule _ h b =>
       orb (match h with
-           | HTheory t => has_char semicolon t
-           | HLit (Lit _ (ATheory t)) => has_char semicolon t
+           | HTheory t => may_have_pool t
+           | HLit (Lit _ (ATheory t)) => may_have_pool t
            | _ => false end)
-          (existsb (has_char semicolon) (flat_map theory_text_of_bodyelem b))
-  | SMin _ _ _ _ b => existsb (has_char semicolon) (flat_map theory_text_of_bodyelem b)
-  | SShowTerm _ b => existsb (has_char semicolon) (flat_map theory_text_of_bodyelem b)
+          (existsb (may_have_pool) (flat_map theory_text_of_bodyelem b))
+  | SMin _ _ _ _ b => existsb (may_have_pool) (flat_map theory_text_of_bodyelem b)
+  | SShowTerm _ b => existsb (may_have_pool) (flat_map theory_text_of_bodyelem b)
   | SShowSig _ _ _ => false
-  | SOther kind text => andb (other_has_body kind) (has_char semicolon text)
+  | SOther kind text => andb (other_has_body kind) (may_have_pool text)
   end.
 
 Definition unpool_stmt (s: stmt) : result (list stmt) :=
@@ -679,7 +706,7 @@ Definition inline_conditional (stm: bodyelem) (globals: list string) : result bo
    global_vars_inside_body is evaluated once per body literal (so not at all for an empty body) and
    may raise AssertionError on a body with an old-style aggregate *)
 Section WithGlobals.
-  Variable gvars : list bodyelem -> result (list string).
+  Context (gvars : list bodyelem -> result (list string)).
   Definition inline_body_with (f: bodyelem -> list string -> result bodyelem) (body: list bodyelem)
     : result (list bodyelem) :=
     match body with
